@@ -7,7 +7,7 @@ import re
 
 from common import SPEC, log, seed, tlc
 
-ALL_INV = ["TypeOK", "ContractOk", "CompleteHeld", "SoundHeld", "CompleteOpens", "SoundOpens", "FlavourOk"]
+ALL_INV = ["TypeOK", "GhostOk", "ContractOk", "CompleteHeld", "SoundHeld", "CompleteOpens", "SoundOpens", "FlavourOk"]
 
 # name -> dict(consts quick/thorough, ops, script, constraint)
 BASE = dict(Dims='{"D1", "D2"}', Kind="<- MCKind", Names='{"a", "b"}', Users='{"u1", "u2"}',
